@@ -6,7 +6,7 @@ function).  Helper lemmas live in `Proof/Lzma*.lean`.
 Conformance of the encodings to FULL LZMA/XZ decoders (`xz_conformance`) is not a theorem here: it is
 covered by the tie only (xz tool, Wuffs std/lzma + std/xz on every generated payload).
 -/
-import WuffsVerif.Proof.LzmaXz
+import WuffsVerif.Proof.LzmaAppend
 import WuffsVerif.Proof.LzmaBound2
 import WuffsVerif.Proof.LzmaFuel
 
@@ -207,6 +207,31 @@ example : decodeXz #[] (encodeXz #[] []).toList = (#[], [], Err.ok) := xz_roundt
 example (b : UInt8) : decodeXz #[] (encodeXz #[] [b]).toList = (#[b], [], Err.ok) :=
   xz_roundtrip [b] (by simp)
 
+/-! ## appending to a non-empty `dst` -/
+
+/-- `Encode(dst, src)` appends: the result is `dst` followed by bytes that do not depend on `dst` (the XZ
+    padding, unpadded-size and index arithmetic are relative to `dstLen0` / `dstLen1`). -/
+theorem encode_appends (dst : Array UInt8) (src : List UInt8) :
+    (encodeLZMA dst src).toList = dst.toList ++ (encodeLZMA #[] src).toList ∧
+    (encodeXz dst src).toList = dst.toList ++ (encodeXz #[] src).toList :=
+  ⟨encodeLZMA_append dst src, encodeXz_append dst src⟩
+
+/-- `lzma_roundtrip` with arbitrary buffers to append to on both sides and arbitrary trailing bytes:
+    `Decode(dst, Encode(dst', src)[len(dst'):] ++ tail) = (dst ++ src, tail, nil)`. -/
+theorem lzma_roundtrip_append (dst dst' : Array UInt8) (src tail : List UInt8) (hlen : src.length < 2 ^ 63) :
+    decodeLZMA dst ((encodeLZMA dst' src).toList.drop dst'.size ++ tail) = (pushList dst src, tail, Err.ok) :=
+  lzma_roundtrip_append_gen dst dst' src tail hlen
+
+/-- `xz_roundtrip`, the same (the CRC-32 is taken over `dst[originalDstLen:]` only). -/
+theorem xz_roundtrip_append (dst dst' : Array UInt8) (src tail : List UInt8) (h : src.length < 2 ^ 60) :
+    decodeXz dst ((encodeXz dst' src).toList.drop dst'.size ++ tail) = (pushList dst src, tail, Err.ok) :=
+  xz_roundtrip_append_gen dst dst' src tail h
+
+/-- non-vacuity: three bytes appended to `[1, 2]`, decoded onto `[9]` -/
+example : decodeXz #[9] ((encodeXz #[1, 2] [7, 7, 7]).toList.drop 2) = (#[9, 7, 7, 7], [], Err.ok) := by
+  have := xz_roundtrip_append #[9] #[1, 2] [7, 7, 7] [] (by decide)
+  rw [List.append_nil] at this
+  exact this
 /-! ## decode_total_bounded -/
 
 /-- `decode_total_bounded`.  Totality: `decodeLZMA`, `decodeXz` and everything below them are total Lean
